@@ -433,6 +433,9 @@ func run(r *core.Run) {
 	// 6. real sessions through the real proxies under the full log capture
 	runSessions(r)
 
+	// 7. the two functions that take the value out of an error text (repo patches 81, 82)
+	runErrTexts(r)
+
 	for _, t := range append(append([]Template{}, Templates...), SpecialTemplates...) {
 		if accepted[t.Pos] == 0 {
 			panic("harness: C16 generator: template " + t.Pos + " was never accepted by the parser: " + t.Text)
